@@ -210,6 +210,9 @@ func (g *Gen) multiMsgAct() {
 		if len(svcs) > 0 && len(binds) > 0 {
 			c := pickInt(g, g.consumers)
 			b := binds[g.pick(len(binds))]
+			if b.ServiceName == types.OraclePriceServiceName && !g.useModSvcCalls {
+				return // calls to the module-reserved service only in runs flagged for them (known finding M1)
+			}
 			m := MsgOp{T: "call", Svc: b.ServiceName, Providers: []string{refOfAddr(g, b.Provider)}, Input: goodInput, FeeCap: "2000stake", Timeout: 1 + int64(g.pick(int(minI64(g.x.cur.Params.MaxRequestTimeout, 3))))}
 			m2 := m
 			m2.Repeated, m2.Total = true, 2
